@@ -47,6 +47,19 @@ OpusDecoder *ref_opus_decoder_create(opus_int32,int,int*); int ref_opus_decode_f
 OpusDecoder *ref_opus_decoder_create(opus_int32,int,int*) __attribute__((weak)); int ref_opus_decode_float(OpusDecoder*,const unsigned char*,opus_int32,float*,int,int) __attribute__((weak));
 #endif
 static OpusDecoder *dbg_ref=NULL;
+/* frozen build of the same arithmetic, driven through exactly the calls the tree decoder gets (float entry point) */
+#ifdef VERIF_HAVE_REF
+#ifdef FIXED_POINT
+#define RD(x) rfx_##x
+#else
+#define RD(x) ref_##x
+#endif
+OpusDecoder *RD(opus_decoder_create)(opus_int32,int,int*); int RD(opus_decode_float)(OpusDecoder*,const unsigned char*,opus_int32,float*,int,int); void RD(opus_decoder_destroy)(OpusDecoder*);
+#endif
+#ifndef C09_REL_DB
+#define C09_REL_DB 12.0      /* a block's distance from the loss-free output may exceed the frozen build's by this much ... */
+#define C09_REL_FLOOR_DB 20.0 /* ... unless it is this far below the block's own level anyway */
+#endif
 static void gains_cb(const silk_decoder_state *psDec,const silk_decoder_control *c,const opus_int16 *nlsf){ (void)nlsf; if(!g_mid) g_mid=psDec; if(dbg_cb) fprintf(stderr,"    silk frame: dec %p type %d prevtype %d gains %d %d %d %d lossCnt %d first_after_reset %d lag %d cng_smth_gain %d plc_prevgain %d %d\n",(void*)psDec,psDec->indices.signalType,psDec->prevSignalType,c->Gains_Q16[0],c->Gains_Q16[1],c->Gains_Q16[2],c->Gains_Q16[3],psDec->lossCnt,psDec->first_frame_after_reset,c->pitchL[0],psDec->sCNG.CNG_smth_Gain_Q16,psDec->sPLC.prevGain_Q16[0],psDec->sPLC.prevGain_Q16[1]); if(psDec!=g_mid||g_phase!=2) return; int j=psDec->nFramesDecoded; if(j<0||j>2) return;
   for(int k=0;k<psDec->nb_subfr;k++) if(g_enc[g_pkt][j][k]>0){ double q=(double)c->Gains_Q16[k]/g_enc[g_pkt][j][k]; if(q<g_minratio) g_minratio=q; if(q>g_maxratio) g_maxratio=q; g_seen++; if(c->Gains_Q16[k]==g_enc[g_pkt][j][k]) g_exact++; }
   if(getenv("C09_DEBUG")&&atoi(getenv("C09_DEBUG"))>=2) fprintf(stderr,"  lbrr of packet %d frame %d decoded gains %d %d %d %d encoder's %d %d %d %d\n",g_pkt,j,c->Gains_Q16[0],c->Gains_Q16[1],c->Gains_Q16[2],c->Gains_Q16[3],g_enc[g_pkt][j][0],g_enc[g_pkt][j][1],g_enc[g_pkt][j][2],g_enc[g_pkt][j][3]); }
@@ -109,10 +122,12 @@ static int dec_api(OpusDecoder *d,const unsigned char *p,int len,float *out,int 
   else { rc=opus_decode24(d,p,len,t24,fs,fec); for(int i=0;i<rc*ch;i++) out[i]=t24[i]*(1.f/8388608.f); vc_count("calls_through_24bit_api",1); }
   return rc; }
 static long fec_better=0, lbrr_sub=0, lbrr_silent=0;
-static int decode_pattern(const cstream *s,OpusDecoder *d,OpusDecoder *clone,const unsigned char *lost,int shape,const char *ctx,double *fec_err,double *plc_err,long *fec_events){
+static OpusDecoder *g_rd=NULL;
+static int decode_pattern_impl(const cstream *s,OpusDecoder *d,OpusDecoder *clone,const unsigned char *lost,int shape,const char *ctx,double *fec_err,double *plc_err,long *fec_events){
   static float out[5760*2], out2[5760*2]; int fs=s->fs, ch=s->ch, Fs=s->Fs; g_dec_ch=ch; const float *TW= g_api==1?s->twin16: g_api==2?s->twin24: s->twin; recent_t q; recent_reset(&q,Fs); int sz=opus_decoder_get_size(ch); double lossms=0; int last_loss=-1000; double sig=0,noi=0; long rn=0; double racc_n=0,racc_s=0; long racc_k=0, rblk=0, rbad=0; int dec_celt=-1;   /* mode of the last packet the decoder actually decoded (1 = MDCT-only) */   /* recovery: per >=20 ms block of audible twin audio, SNR against the twin */
   OpusDecoder *dbg_tw=NULL; if(getenv("C09_DEBUG")&&atoi(getenv("C09_DEBUG"))>=5){ int e2; dbg_tw=opus_decoder_create(Fs,ch,&e2); }
   dbg_ref=NULL; if(getenv("C09_DEBUG")&&atoi(getenv("C09_DEBUG"))>=6&&&ref_opus_decoder_create){ int e3; dbg_ref=ref_opus_decoder_create(Fs,ch,&e3); }
+  OpusDecoder *rd=g_rd; static float rout[5760*2]; long relbad=0, relblk=0; int relfirst=-1, relfirst_after=0; double relw_t=0,relw_r=0,relw_s=0;
   opus_decoder_ctl(d,OPUS_RESET_STATE); cacc.e=0; cacc.p=0; cacc.n=0; dacc.e=0; dacc.n=0; cc_prev1s=0; cc_cur1s=0; cc_have1s=0;
   for(int i=0;i<s->n;i++){ double Dms=fs*1000.0/Fs;
     if(getenv("C09_DEBUG")&&atoi(getenv("C09_DEBUG"))>=7) dbg_cb=(i>=196&&i<=206);
@@ -122,6 +137,10 @@ static int decode_pattern(const cstream *s,OpusDecoder *d,OpusDecoder *clone,con
       if(use_fec){ /* the decoder conceals from a clone first (for comparison), then the real decoder uses the next packet's LBRR */
         memcpy(clone,d,sz); int rp=dec_api(clone,NULL,0,out2,fs,0); int want=fs; int big=(shape==3&&fs*2<=Fs/25*3); if(big) want=fs*2;   /* frame_size larger than the packet: concealment for the gap + LBRR */
         g_phase=2; g_pkt=i; g_minratio=1e9; g_maxratio=0; g_seen=0; g_exact=0; int rf=dec_api(d,s->pkt[i+1],s->len[i+1],out,want,1); g_phase=0; vc_count("fec_calls",1);
+#ifdef VERIF_HAVE_REF
+        if(rd) RD(opus_decode_float)(rd,s->pkt[i+1],s->len[i+1],rout,want,1);
+#endif
+
         if(g_seen){ vc_count("lbrr_subframe_gains_compared",g_seen); vc_count("lbrr_subframe_gains_equal_to_encoder",g_exact); vc_min("lbrr_decoded_gain_over_encoder_gain",g_minratio); vc_max("lbrr_decoded_gain_over_encoder_gain",g_maxratio);
           if(g_minratio<C09_LBRR_GAIN){ vc_viol("fec:lbrr-gain-collapsed","a frame rebuilt from the LBRR data in packet %d is decoded with a sub-frame gain %.4f x the gain the encoder quantised that LBRR frame with (%s)",i+1,g_minratio,ctx); return 1; } }
         if(rp!=fs||rf!=want){ vc_viol("fec:duration","FEC call returned %d for frame_size %d (concealment on the clone %d) %s",rf,want,rp,ctx); return 1; }
@@ -141,13 +160,23 @@ static int decode_pattern(const cstream *s,OpusDecoder *d,OpusDecoder *clone,con
       int merge=1; if(shape==0&&(i&1)==0){ while(merge<3&&i+merge<s->n&&lost[i+merge]&&(merge+1)*fs<=Fs/25*3) merge++; }
       int total=fs*merge; int piece= shape==1?(Fs/400)*(1+(i*7+3)%8): shape==4?Fs/400 /* everything in 2.5 ms calls */ :total; if(piece>total) piece=total; int done=0; for(int k=0;k<total*ch;k++) out[k]=NAN;
       if(merge>1) vc_count("plc_calls_spanning_several_packets",1);
-      while(done<total){ int w=total-done<piece?total-done:piece; int rc=dec_api(d,NULL,0,out+(size_t)done*ch,w,0); vc_count("plc_calls",1); if(rc!=w){ vc_viol("plc:duration","concealment call returned %d for frame_size %d (%s)",rc,w,ctx); return 1; } opus_int32 lpd=0; opus_decoder_ctl(d,OPUS_GET_LAST_PACKET_DURATION(&lpd)); if(lpd!=w){ vc_viol("plc:last-duration","last packet duration %d after concealing %d samples (%s)",lpd,w,ctx); return 1; } done+=w; }
+      while(done<total){ int w=total-done<piece?total-done:piece; int rc=dec_api(d,NULL,0,out+(size_t)done*ch,w,0); vc_count("plc_calls",1);
+#ifdef VERIF_HAVE_REF
+        if(rd) RD(opus_decode_float)(rd,NULL,0,rout,w,0);
+#endif
+        if(rc!=w){ vc_viol("plc:duration","concealment call returned %d for frame_size %d (%s)",rc,w,ctx); return 1; } opus_int32 lpd=0; opus_decoder_ctl(d,OPUS_GET_LAST_PACKET_DURATION(&lpd)); if(lpd!=w){ vc_viol("plc:last-duration","last packet duration %d after concealing %d samples (%s)",lpd,w,ctx); return 1; } done+=w; }
       if(getenv("C09_DEBUG")&&atoi(getenv("C09_DEBUG"))>=6){ double e0=0,e1=0; for(int k=0;k<total;k++){ e0+=out[k*ch]*out[k*ch]; if(ch>1) e1+=out[k*ch+1]*out[k*ch+1]; } fprintf(stderr,"pkt %d LOST (toc %02x len %d) concealed %d samples rmsL %.4f rmsR %.4f\n",i,s->pkt[i][0],s->len[i],total,sqrt(e0/total),sqrt(e1/total)); if(dbg_ref){ static float o4[5760*2]; ref_opus_decode_float(dbg_ref,NULL,0,o4,total,0); double r0=0; for(int k=0;k<total;k++) r0+=o4[k*ch]*o4[k*ch]; fprintf(stderr,"      frozen reference decoder conceals the same loss at rmsL %.4f\n",sqrt(r0/total)); } }
       if(check_concealed(out,total,ch,&q,lossms,Fs,"concealment",ctx)) return 1; lossms+=Dms*merge; last_loss=i+merge-1; i+=merge-1; continue; }
     int rc=dec_api(d,s->pkt[i],s->len[i],out,fs,0); if(getenv("C09_DEBUG")&&atoi(getenv("C09_DEBUG"))>=6){ double e0=0,e1=0; for(int k=0;k<fs;k++){ e0+=out[k*ch]*out[k*ch]; if(ch>1) e1+=out[k*ch+1]*out[k*ch+1]; } fprintf(stderr,"pkt %d rx toc %02x len %d rmsL %.4f rmsR %.4f\n",i,s->pkt[i][0],s->len[i],sqrt(e0/fs),sqrt(e1/fs)); if(dbg_ref){ static float o4[5760*2]; ref_opus_decode_float(dbg_ref,s->pkt[i],s->len[i],o4,fs,0); } } opus_uint32 fr=0; opus_decoder_ctl(d,OPUS_GET_FINAL_RANGE(&fr)); vc_count("received_calls",1);
     if(rc!=fs){ vc_viol("received:duration","received packet %d returned %d expected %d (%s)",i,rc,fs,ctx); return 1; }
     if(fr!=s->rng[i]){ vc_viol("received:final-range","packet %d after losses decodes with final range %08x, encoder had %08x (%s)",i,fr,s->rng[i],ctx); return 1; }
     for(int k=0;k<fs*ch;k++) if(!isfinite(out[k])){ vc_viol("received:not-finite","non-finite sample in packet %d (%s)",i,ctx); return 1; }
+#ifdef VERIF_HAVE_REF
+    if(rd){ int rr=RD(opus_decode_float)(rd,s->pkt[i],s->len[i],rout,fs,0); if(rr==fs&&last_loss>=0){ /* convergence relative to the frozen build: per 5 ms block, distance from the loss-free output */
+        const float *t=TW+(size_t)i*fs*ch; int B=Fs/200; for(int b0=0;b0+B<=fs;b0+=B){ double et=0,er=0,st=0; for(int k=b0*ch;k<(b0+B)*ch;k++){ double a=out[k]-t[k], q=rout[k]-t[k]; et+=a*a; er+=q*q; st+=(double)t[k]*t[k]; }
+          if(st<1e-6*B*ch&&et<1e-6*B*ch) continue; relblk++; if(et>pow(10,-C09_REL_FLOOR_DB/10)*st){ vc_count("recovery_blocks_above_floor",1); vc_max("recovery_block_error_tree_over_frozen_db_above_floor",10*log10(et/(er+1e-9*B*ch))); }
+          if(et>pow(10,-C09_REL_FLOOR_DB/10)*st&&et>pow(10,C09_REL_DB/10)*er+1e-9*B*ch){ relbad++; if(relfirst<0){ relfirst=i; relfirst_after=i-last_loss; relw_t=et; relw_r=er; relw_s=st; } } } } }
+#endif
     if(cc_have1s){ cc_prev1s=cc_cur1s; cc_have1s=0; } dacc.e=0; dacc.n=0; lossms=0; cacc.e=0; cacc.p=0; cacc.n=0; recent_push(&q,out,fs,ch); dec_celt=(s->pkt[i][0]&0x80)?1:0;
     /* recovery: from 1 s after the last loss, compare with the loss-free twin */
     if(dbg_tw&&last_loss>=0&&(i-last_loss)%20==0){ const unsigned char *a=(const unsigned char*)d,*b=(const unsigned char*)dbg_tw; int nd=0; char offs[400]; offs[0]=0; int prev=-100; for(int q=0;q<sz;q++) if(a[q]!=b[q]){ nd++; if(q-prev>8&&strlen(offs)<380) sprintf(offs+strlen(offs),"%d ",q); prev=q; } fprintf(stderr,"state diff +%d: %d bytes differ; offsets %s\n",i-last_loss,nd,offs); }
@@ -156,8 +185,21 @@ static int decode_pattern(const cstream *s,OpusDecoder *d,OpusDecoder *clone,con
   /* recovery: from 1 s after the last loss the output is the loss-free twin's again.  Verdict on the fraction of audible >=20 ms blocks within C09_RECOVER_DB of the twin (a decoder that
      went through a loss keeps last-bit state differences for ever, and SILK's long-term predictor can amplify them for a few frames at a strong voiced onset seconds later: the
      closed-loop encoder only keeps its own synthesis on track); the aggregate SNR is reported */
+  if(rd&&relblk){ vc_count("recovery_blocks_compared_with_frozen_build",relblk); vc_count("recovery_patterns_compared_with_frozen_build",1);
+    if(relbad){ vc_viol("recovery:worse-than-frozen-build","after the loss %ld of %ld 5 ms blocks of received packets are more than %.0f dB further from the loss-free decoder's output than the frozen build's decoder is under the same calls (and less than %.0f dB below the block's level); first: packet %d, %d packets after the last loss: distance %.1f dB re the block's level, frozen build %.1f dB (%s)",relbad,relblk,C09_REL_DB,C09_REL_FLOOR_DB,relfirst,relfirst_after,10*log10(relw_t/(relw_s+1e-20)),10*log10((relw_r+1e-20)/(relw_s+1e-20)),ctx); return 1; } }
   if(rn>=Fs/4&&sig>1e-6&&rblk>=5){ double snr=10*log10(sig/(noi+1e-20)); vc_min("recovery_snr_db_1s_after_loss",snr); vc_max("recovery_fraction_of_blocks_not_converged",(double)rbad/rblk); if(rbad>C09_RECOVER_BADFRAC*rblk){ vc_viol("recovery:not-converged","from 1 s after the last loss %ld of %ld audible 20 ms blocks are still more than %.0f dB (SNR) away from the loss-free decoder's output (aggregate SNR %.1f dB) (%s)",rbad,rblk,C09_RECOVER_DB,snr,ctx); return 1; } vc_count("recoveries_checked",1); if(noi==0) vc_count("recoveries_bit_exact",1); }
   return 0; }
+
+static int decode_pattern(const cstream *s,OpusDecoder *d,OpusDecoder *clone,const unsigned char *lost,int shape,const char *ctx,double *fec_err,double *plc_err,long *fec_events){
+  g_rd=NULL;
+#ifdef VERIF_HAVE_REF
+  static unsigned alt=0; if(g_api==0&&((alt++)&1)==0){ int e4; g_rd=RD(opus_decoder_create)(s->Fs,s->ch,&e4); }
+#endif
+  int rc=decode_pattern_impl(s,d,clone,lost,shape,ctx,fec_err,plc_err,fec_events);
+#ifdef VERIF_HAVE_REF
+  if(g_rd){ RD(opus_decoder_destroy)(g_rd); g_rd=NULL; }
+#endif
+  return rc; }
 
 static void mode_window(void){
   vc_rng r; vc_case_rng(&r,9); int err; int K=(int)vc_argl("k",8); cstream s; make_stream(&r,&s,3400); double Dms0=s.fs*1000.0/s.Fs; int pos_min=(int)(500/Dms0)+1, pos_max=s.n-K-(int)(1500/Dms0)-2; if(pos_max<pos_min){ vc_count("streams_too_short",1); free_stream(&s); return; }
